@@ -22,6 +22,8 @@ C02_INVS = {'KKT', 'Optimal', 'KKTImpliesOptimal'}
 def finding_key(tag, run, rec, tags_by_run=None, j=None):
     """Fingerprint of a record-level failure (input class + call site), see known-findings.txt."""
     sv = run['solver']
+    if sv in ('static-perm', 'static-rev'):      # the static solver on a relabelled / reversed copy: same call site
+        sv = 'static'
     if sv == 'static' and tag == 'throws-on-feasible:cyclic':
         return 'static-solver:cyclic-graph:throws-on-feasible'
     if sv == 'static' and tag == 'equality-positive-slack':
@@ -32,6 +34,12 @@ def finding_key(tag, run, rec, tags_by_run=None, j=None):
         again = tags_by_run.get(j + 1, set())
         if j < len(rec['runs']) and rec['runs'][j]['solver'] == 'inc-live-again' and 'not-optimal' not in again:
             return 'incsolver:resolve:cost-unchanged-exit-with-negative-multiplier'
+    if sv in ('inc', 'inc-perm', 'inc-rev') and run['call'] == 'solve' and tag == 'not-optimal' and tags_by_run is not None:
+        again = tags_by_run.get(j + 1, set())
+        if j < len(rec['runs']) and rec['runs'][j]['solver'] == sv + '-again' and 'not-optimal' not in again:
+            return 'incsolver:solve:cost-unchanged-exit-with-negative-multiplier'
+    if sv.endswith('-again') and sv != 'inc-live-again':
+        sv = sv[:-6] + ':called-twice'
     return 'vpsc:%s:%s:%s' % (sv, run['call'], tag)
 
 
